@@ -155,7 +155,11 @@ def stepLine (d : DState) (line : String) : DState × String :=
   | "p" :: rest =>
     match parseInput rest with
     | some i =>
-      let p : P2PInput := { signedDecodeOk := boolOf rest "sdo", payloadLen := natD rest "plen", netDecodeOk := boolOf rest "ndo",
+      let sg : SigResult := match i.envSig with
+        | .valid => .valid
+        | .operatorNotFound => .operatorNotFound
+        | _ => .invalid        -- letter n: no verification was made (fork inactive or envelope undecodable): never consulted
+      let p : P2PInput := { signedDecodeOk := boolOf rest "sdo", sig := sg, payloadLen := natD rest "plen", netDecodeOk := boolOf rest "ndo",
                             topicOk := boolOf rest "top", inner := i }
       let (st', o) := validateP2P d.ctx d.st p
       ({ d with st := st' }, showOutcome o ++ " st=" ++ showState st' i)
